@@ -180,6 +180,8 @@ def install(prog):
         key = (fmt, data if type(data) in (str, bytes) else repr(data))
         if type(data) is bytes:
             key = (fmt, data.decode('utf-8', 'replace'))
+        if key not in planted and (fmt, '*') in planted:
+            key = (fmt, '*')
         if key in planted:
             v = planted[key]
             if type(v) is tuple and v and v[0] == 'error':
@@ -194,11 +196,11 @@ def install(prog):
         data = D(a[1])
         return FmtV((('b64', eng, data),))
 
-    @B('const base64::engine::general_purpose::STANDARD', 'const STANDARD', 'const base64::prelude::BASE64_STANDARD')
+    @B('const base64::engine::general_purpose::STANDARD', 'const STANDARD', 'const base64::prelude::BASE64_STANDARD', 'const base64::prelude::STANDARD')
     def b_b64_std(ctx, a, callee):
         return Agg('GeneralPurpose', None, ('STANDARD',))
 
-    @B('const base64::engine::general_purpose::URL_SAFE', 'const URL_SAFE', 'const base64::prelude::BASE64_URL_SAFE')
+    @B('const base64::engine::general_purpose::URL_SAFE', 'const URL_SAFE', 'const base64::prelude::BASE64_URL_SAFE', 'const base64::prelude::URL_SAFE')
     def b_b64_url(ctx, a, callee):
         return Agg('GeneralPurpose', None, ('URL_SAFE',))
 
